@@ -264,7 +264,8 @@ void harness(void) { ghost_reset(); Handle* f; g_detaches = 0; Dtor(f); if (g_de
     job('Future.Dtor', b, src, 'Dtor', ['Detach'], canaries=2)
     b = find_body(repo, F_FUT, r'Result<V,\s*E>\s+Get\s*\(\s*\)\s*&&\s*noexcept', 'FutureBase::Get&&')
     pre = [(r'Wait\(\s*\*this\s*\)\s*;', 'WaitReady(self);', 0), (r'auto\s+core\s*=\s*std::exchange\(\s*_core\s*,\s*nullptr\s*\)\s*;', 'Core* core = HANDLE_RELEASE(self);', 0),
-           (r'return\s+std::move\(\s*core->Get\(\)\s*\)\s*;', '{ Res vf_r = MOVE_RESULT(core); DecRef(core); /* ~IntrusivePtr */ return vf_r; }', 0)]
+           (r'return\s+std::move\(\s*core->Get\(\)\s*\)\s*;', '{ Res vf_r = MOVE_RESULT(core); DecRef(core); /* ~IntrusivePtr */ return vf_r; }', 0),
+           (r'return\s+std::move\(\s*_core->Get\(\)\s*\)\s*;', '{ Res vf_r = MOVE_RESULT(self->_core); return vf_r; }', 0)]
     c = rw('Future::Get&&', pre=pre).rewrite(b.text)
     src = COMMON + '''unsigned char g_ready;
 void WaitReady(Handle* f) __CPROVER_requires(f->_core != 0) __CPROVER_assigns(g.waits, g_ready) __CPROVER_ensures(g.waits == OLD(g.waits) + 1 && g_ready == 1);
@@ -294,6 +295,63 @@ __CPROVER_ensures(g_is_ready ? RET == &self->_core->_result : RET == 0)
 void harness(void) { ghost_reset(); Handle* f; Res* r = GetConst(f); if (r) VF_CANARY("ready"); else VF_CANARY("not ready"); }
 '''
     job('Future.Get.const', b, src, 'GetConst', ['Ready'], canaries=2)
+
+    # ---- Future: Valid, Ready, Touch x2 -----------------------------------------------------------------------------------
+    def future_small():
+        b = find_body(repo, F_FUT, r'bool\s+Valid\s*\(\s*\)\s*const\s*&\s*noexcept', 'FutureBase::Valid')
+        c = rw('Future::Valid').rewrite(b.text)
+        src = COMMON + 'int Valid(Handle* self)\n__CPROVER_requires(__CPROVER_is_fresh(self, sizeof(*self)))\n__CPROVER_assigns()\n/* a Future is valid exactly while it owns a core */\n__CPROVER_ensures(RET == (self->_core != 0))\n{' + c + \
+            '}\nvoid harness(void) { ghost_reset(); Handle* f; if (Valid(f)) VF_CANARY("valid"); else VF_CANARY("invalid"); }\n'
+        job('Future.Valid', b, src, 'Valid', [], canaries=2)
+        b = find_body(repo, F_FUT, r'bool\s+Ready\s*\(\s*\)\s*const\s*&\s*noexcept', 'FutureBase::Ready')
+        c = rw('Future::Ready', pre=[(r'_core->Empty\(\)', 'CoreEmpty(self->_core)', 1), (r'(?<![\w.>])Valid\(\)', '(self->_core != 0)', 0)]).rewrite(b.text)
+        src = COMMON + '''unsigned char g_has_result;
+/* BaseCore::Empty (unit base_core, after finding F04): true exactly while no Result has been published */
+int CoreEmpty(Core* c) __CPROVER_requires(c != 0) __CPROVER_assigns() __CPROVER_ensures(RET == !g_has_result && g_has_result <= 1);
+int Ready(Handle* self)
+__CPROVER_requires(__CPROVER_is_fresh(self, sizeof(*self)) && self->_core != 0)
+__CPROVER_assigns()
+/* C01: Ready() is true exactly when the Result has been published (never because a continuation or waiter is registered) */
+__CPROVER_ensures(RET == g_has_result)
+{''' + c + '''}
+void harness(void) { ghost_reset(); Handle* f; if (Ready(f)) VF_CANARY("ready"); else VF_CANARY("pending"); }
+'''
+        job('Future.Ready', b, src, 'Ready', ['CoreEmpty'], canaries=2)
+        b = find_body(repo, F_FUT, r'const\s+Result<V,\s*E>\s*&\s*Touch\s*\(\s*\)\s*const\s*&\s*noexcept', 'FutureBase::Touch const&')
+        c = rw('Future::Touch const&', pre=[(r'return\s+_core->Get\(\)\s*;', 'return &self->_core->_result;', 1), (r'(?<![\w.>])Ready\(\)', 'g_is_ready', 0)]).rewrite(b.text)
+        src = COMMON + '''unsigned char g_is_ready;
+Res* TouchConst(Handle* self)
+/* precondition of Touch: the future is Ready (asserted by the library in debug builds) */
+__CPROVER_requires(__CPROVER_is_fresh(self, sizeof(*self)) && __CPROVER_is_fresh(self->_core, sizeof(Core)) && g_is_ready == 1)
+__CPROVER_assigns()
+/* Touch() const&: a reference to the stored Result itself; nothing is moved, released or invalidated */
+__CPROVER_ensures(RET == &self->_core->_result && self->_core == OLD(self->_core) && g.decrefs == 0 && g.moves == 0)
+{''' + c + '''}
+void harness(void) { ghost_reset(); g_is_ready = 1; Handle* f; TouchConst(f); VF_CANARY("end"); }
+'''
+        job('Future.Touch.const', b, src, 'TouchConst', [])
+        b = find_body(repo, F_FUT, r'Result<V,\s*E>\s+Touch\s*\(\s*\)\s*&&\s*noexcept', 'FutureBase::Touch&&')
+        pre = [(r'(?<![\w.>])Ready\(\)', 'g_ready', 0), (r'auto\s+core\s*=\s*std::exchange\(\s*_core\s*,\s*nullptr\s*\)\s*;', 'Core* core = HANDLE_RELEASE(self);', 0),
+               (r'return\s+std::move\(\s*core->Get\(\)\s*\)\s*;', '{ Res vf_r = MOVE_RESULT(core); DecRef(core); /* ~IntrusivePtr */ return vf_r; }', 0),
+           (r'return\s+std::move\(\s*_core->Get\(\)\s*\)\s*;', '{ Res vf_r = MOVE_RESULT(self->_core); return vf_r; }', 0)]
+        c = rw('Future::Touch&&', pre=pre).rewrite(b.text)
+        src = COMMON + '''unsigned char g_ready;
+static inline Res MOVE_RESULT(Core* c) { __CPROVER_assert(g_ready, "C01: the Result is read only once it can be read"); __CPROVER_assert(g.decrefs == 0, "C03: no access after release");
+  Res r = c->_result; c->_result.moved_from = 1; g.moves++; return r; }
+Res Touch(Handle* self)
+__CPROVER_requires(__CPROVER_is_fresh(self, sizeof(*self)) && __CPROVER_is_fresh(self->_core, sizeof(Core)) && g.waits == 0 && g.decrefs == 0 && g.moves == 0 && g_ready == 1)
+__CPROVER_assigns(self->_core, g.moves, g.decrefs, g.decref_of, g.t_decref, g.clock, self->_core->_result.moved_from)
+/* Touch()&& on a ready future: exactly the stored Result (state and payload) without waiting, the core is released once afterwards, the handle is invalid */
+__CPROVER_ensures(g.waits == 0 && RET.state == OLD(self->_core->_result.state) && RET.tag == OLD(self->_core->_result.tag))
+__CPROVER_ensures(g.decrefs == 1 && g.decref_of == OLD(self->_core) && self->_core == 0 && g.moves == 1)
+{''' + c + '''}
+void harness(void) { ghost_reset(); Handle* f; g_ready = 1; Touch(f); VF_CANARY("end"); }
+'''
+        job('Future.Touch.rvalue', b, src, 'Touch', ['DecRef'])
+    try:
+        future_small()
+    except ExtractionBreak as e:
+        ctx.breaks.append(str(e))
 
     # ---- Task: ~Task, Cancel, Detach x2, ToFuture x2 ------------------------------------------------------------------
     start_stubs = '''void StoreCallback(Core* c, Core* cb) __CPROVER_requires(c != 0 && g.starts == 0) __CPROVER_assigns(g.store_cbs, g.sc_on, g.sc_cb) __CPROVER_ensures(g.store_cbs == OLD(g.store_cbs) + 1 && g.sc_on == c && g.sc_cb == cb);
